@@ -31,6 +31,9 @@ partial def decAct (j : Json) : Except String Act := do
   | "log" => pure (.log (← decLevel (← field j "level")))
   | "check" => pure (.check (← fbool j "ok"))
   | "step" => pure (.step (← (← field j "d").getStr?))
+  -- `with lcc.detached_step(d): pass` — lowered as `SessionApi.lower` says (entering = set_step(d), leaving = nothing;
+  -- `C07.detached_enter_is_set_step`, `C07.detached_exit_does_nothing`)
+  | "detached" => pure (.step (← (← field j "d").getStr?))
   | "url" => pure .url
   | "attach" => pure .attach
   | "raise" =>
